@@ -48,7 +48,16 @@ def handler(case):
     if len(eqs) != 1:
         return {"tree": None, "note": "%d equations" % len(eqs)}
     left = ser(eqs[0].left, ast)
-    return {"tree": ser(eqs[0].right, ast), "left": left}
+    out = {"tree": ser(eqs[0].right, ast), "left": left}
+    if case.get("binding"):
+        # value bound in the declaration  parameter String s = <literal>;
+        # (stored by the parser as the element modification `value` of the symbol's class_modification)
+        out["binding"] = None
+        cm = cls.symbols["s"].class_modification
+        for arg in (cm.arguments if cm is not None else []):
+            if arg.value.component.name == "value" and len(arg.value.modifications) == 1:
+                out["binding"] = ser(arg.value.modifications[0], ast)
+    return out
 
 
 if __name__ == "__main__":
